@@ -40,3 +40,4 @@ ASSUMPTIONS = [
     "CBMC allocator model: allocation succeeds",
 ]
 UNVERIFIED = {"C12": ["macro write_flushes emission (macro/src/lib.rs token stream)", "C++ WriteFromString/_grow/_flush in runtime.hpp.jinja", "C runtime.h.jinja mirror"]}
+QUICK_ELSEWHERE = {"C15": "C12"}
